@@ -96,6 +96,7 @@ namespace mon
          std::vector< aev > alog;      // transactional
          long raw_actions = 0;
          std::vector< scope > scopes;  // transactional list of state scopes
+         bool pos_reported = false;   // a position discrepancy was already reported in this run
          std::vector< int > live_states;   // serials of the state objects alive, innermost last (0 = the top-level state)
          std::vector< sev > slog;
          std::vector< pending > viols;
@@ -170,7 +171,13 @@ namespace mon
             return;
          }
          const ref::pos3 x = expected_pos( s.p );
-         const bool bad = ( s.byte != x.byte ) || ( s.has_lc && ( s.line != x.line || s.column != x.column ) );
+         bool bad = ( s.byte != x.byte ) || ( s.has_lc && ( s.line != x.line || s.column != x.column ) );
+         if( bad ) {
+            // a wrong counter stays wrong for everything that follows (and changes shape at every later line ending): only the
+            // first discrepancy of a run is reported, so that the key names the rule that introduced it
+            if( R.pos_reported ) bad = false;
+            else R.pos_reported = true;
+         }
          if( bad ) {
             std::string cls = R.lazy ? "lazy" : "eager";
             const bool sub = inside_subinput() || g_leaving_subinput;
@@ -178,7 +185,8 @@ namespace mon
             char b[ 200 ];
             std::snprintf( b, sizeof b, "%s of %.*s: position (byte %zu line %zu col %zu) but the consumed prefix of %zu bytes gives (byte %zu line %zu col %zu)", where, int( std::min< std::size_t >( rule.size(), 60 ) ), rule.data(), s.byte, s.line, s.column, std::size_t( s.p - R.base ), x.byte, x.line, x.column );
             // one key for the whole class "lazy tracking inside a rematch sub-input"; otherwise the rule is part of the call site
-            viol( "C06", "C06|position-mismatch|" + cls + ( ( sub && R.lazy ) ? std::string() : "|" + where_rule() ), b );
+            const std::string intro = ( std::strcmp( where, "exit" ) == 0 ) ? tmpl( rule ) : where_rule();
+            viol( "C06", "C06|position-mismatch|" + cls + ( ( sub && R.lazy ) ? std::string() : "|" + intro ), b );
          }
       }
 
@@ -436,7 +444,8 @@ namespace mon
             if( e != cursor ) viol( "C04", "C04|span-end|" + t, "action input of " + std::string( vname( vid ) ) + " ends at offset " + std::to_string( e - R.base ) + " but the cursor is at " + std::to_string( cursor - R.base ) );
             if( b >= R.base && b <= R.end ) {
                const ref::pos3 x = expected_pos( b );
-               if( pbyte != x.byte || pline != x.line || pcol != x.column ) {
+               if( ( pbyte != x.byte || pline != x.line || pcol != x.column ) && !R.pos_reported ) {
+                  R.pos_reported = true;
                   std::string cls = R.lazy ? "lazy" : "eager";
                   if( inside_subinput() ) cls += "|rematch-subinput";
                   viol( "C06", "C06|action-position|" + cls + ( ( inside_subinput() && R.lazy ) ? std::string() : "|" + where_rule() ), "action_input::position() of " + std::string( vname( vid ) ) + " is (" + std::to_string( pbyte ) + "," + std::to_string( pline ) + "," + std::to_string( pcol ) + ") but the prefix gives (" + std::to_string( x.byte ) + "," + std::to_string( x.line ) + "," + std::to_string( x.column ) + ")" );
@@ -770,7 +779,7 @@ namespace mon
             if( t.has_content ) {
                const ref::pos3 xb = ref::position_of( input, t.bo, R.eolch );
                const ref::pos3 xe = ref::position_of( input, t.eo, R.eolch );
-               if( t.bbyte != xb.byte || t.bline != xb.line || t.bcol != xb.column || t.ebyte != xe.byte || t.eline != xe.line || t.ecol != xe.column )
+               if( ( t.bbyte != xb.byte || t.bline != xb.line || t.bcol != xb.column || t.ebyte != xe.byte || t.eline != xe.line || t.ecol != xe.column ) && !R.pos_reported )
                   viol( "C06", std::string( "C06|tree-node-position|" ) + ( cfg.lazy ? "lazy" : "eager" ), "node " + tmpl( t.type ) + " reports begin (" + std::to_string( t.bbyte ) + "," + std::to_string( t.bline ) + "," + std::to_string( t.bcol ) + ") for byte offset " + std::to_string( t.bo ) );
             }
          }
@@ -1067,7 +1076,7 @@ namespace mon
                if( R.raised && ( rs.ebyte != R.r_pos.byte || rs.eline != R.r_pos.line || rs.ecol != R.r_pos.column ) && ro.nested_depth == 0 ) viol( "C05", "C05|position-changed-in-flight|" + topt, "the parse_error caught at the call site carries a different position than the one raised" );
                if( rs.ebyte <= input.size() ) {
                   const ref::pos3 x = ref::position_of( input, rs.ebyte, R.eolch );
-                  if( rs.eline != x.line || rs.ecol != x.column ) viol( "C06", std::string( "C06|parse-error-position|" ) + ( cfg.lazy ? "lazy" : "eager" ) + "|" + topt, "parse_error position (byte " + std::to_string( rs.ebyte ) + " line " + std::to_string( rs.eline ) + " col " + std::to_string( rs.ecol ) + ") is not the position function of the prefix (line " + std::to_string( x.line ) + " col " + std::to_string( x.column ) + ")" );
+                  if( ( rs.eline != x.line || rs.ecol != x.column ) && !R.pos_reported ) viol( "C06", std::string( "C06|parse-error-position|" ) + ( cfg.lazy ? "lazy" : "eager" ) + "|" + topt, "parse_error position (byte " + std::to_string( rs.ebyte ) + " line " + std::to_string( rs.eline ) + " col " + std::to_string( rs.ecol ) + ") is not the position function of the prefix (line " + std::to_string( x.line ) + " col " + std::to_string( x.column ) + ")" );
                }
                else viol( "C05", "C05|position-beyond-input|" + topt, "parse_error byte beyond the input" );
                const std::string w = "x:" + std::to_string( rs.eline ) + ":" + std::to_string( rs.ecol ) + ": " + rs.msg;
